@@ -504,6 +504,12 @@ func (c *Client) processor() error {
 
 		// return eventual error
 		if err != nil {
+			// ensure that the client is cleaned up, as some handlers return
+			// an error without closing the connection (failed subscription,
+			// session error) which would leave a connected client that does
+			// not process packets anymore
+			_ = c.die(err, true)
+
 			return err // error has already been cleaned
 		}
 	}
